@@ -396,6 +396,7 @@ type Env struct {
 	Funcs   map[string]FuncSym                          // uninterpreted function symbols visible to the contract ($key)
 	Pure    func(name string, args []Term) (Term, bool) // application of a pure repository function
 	Reveal  map[string]bool
+	Ghost   func(name string, args []Term) (Term, bool) // ghost relation in the state this environment describes
 }
 
 type FuncSym struct {
@@ -413,7 +414,7 @@ type SpecDef struct {
 }
 
 func (env *Env) child() *Env {
-	n := &Env{Vars: map[string]Term{}, Lookup: env.Lookup, Old: env.Old, FieldOf: env.FieldOf, Defs: env.Defs, Sorts: env.Sorts, Funcs: env.Funcs, Pure: env.Pure, Reveal: env.Reveal}
+	n := &Env{Vars: map[string]Term{}, Lookup: env.Lookup, Old: env.Old, FieldOf: env.FieldOf, Defs: env.Defs, Sorts: env.Sorts, Funcs: env.Funcs, Pure: env.Pure, Reveal: env.Reveal, Ghost: env.Ghost}
 	for k, v := range env.Vars {
 		n.Vars[k] = v
 	}
@@ -455,6 +456,8 @@ func sortByName(n string) *Sort {
 		return SeqOf(SStr)
 	case "ints":
 		return SeqOf(SInt)
+	case "any":
+		return SAny
 	}
 	panic("unknown sort name " + n)
 }
@@ -723,7 +726,16 @@ func callSMT(e *ECall, env *Env) Term {
 		if env.Old == nil {
 			return toSMT(e.Args[0], env)
 		}
-		return toSMT(e.Args[0], env.Old)
+		// bound variables of enclosing quantifiers stay visible inside old(...)
+		o := *env.Old
+		o.Vars = map[string]Term{}
+		for k, v := range env.Vars {
+			o.Vars[k] = v
+		}
+		for k, v := range env.Old.Vars {
+			o.Vars[k] = v
+		}
+		return toSMT(e.Args[0], &o)
 	}
 	var a []Term
 	for _, x := range e.Args {
@@ -880,6 +892,11 @@ func callSMT(e *ECall, env *Env) Term {
 			return T(ss, "(%s %s)", e.Fn, joinTerms(a))
 		}
 	}
+	if env.Ghost != nil {
+		if t, ok := env.Ghost(e.Fn, a); ok {
+			return t
+		}
+	}
 	if env.Pure != nil {
 		if t, ok := env.Pure(e.Fn, a); ok {
 			return t
@@ -898,7 +915,7 @@ func callSMT(e *ECall, env *Env) Term {
 		if d.Opaque && !env.Reveal[d.Name] {
 			return T(SBool, "(spec.%s %s)", d.Name, joinTerms(a))
 		}
-		c := &Env{Vars: map[string]Term{}, Defs: env.Defs, Pure: env.Pure, Sorts: env.Sorts, Reveal: env.Reveal}
+		c := &Env{Vars: map[string]Term{}, Defs: env.Defs, Pure: env.Pure, Sorts: env.Sorts, Reveal: env.Reveal, Ghost: env.Ghost}
 		for i, p := range d.Params {
 			c.Vars[p] = a[i]
 		}
